@@ -155,6 +155,44 @@ def odd_marker(t, pos, log=None):
     t._send_message = send
 
 
+def first_only_marker(t, log=None):
+    """Make transport `t` advertise its kex-strict marker in its FIRST KEXINIT only (the marker is only defined
+    there; e.g. OpenSSH omits it on re-exchanges).  Rewritten before sending and in the copy kept for the hash."""
+    orig = t._send_message
+    state = {"n": 0}
+
+    def send(m, _o=orig):
+        raw = m.asbytes()
+        if raw[:1] == b"\x14":
+            state["n"] += 1
+            if state["n"] > 1:
+                (first,), _rest = kexlab.sshsig.read_strings(raw[17:], 1)
+                names = [n for n in first.decode().split(",") if not n.startswith("kex-strict-")]
+                raw2 = raw[:17] + kexlab.sshsig.s(",".join(names)) + raw[17 + 4 + len(first):]
+                t.local_kex_init = t._latest_kex_init = raw2
+                if log is not None:
+                    log.append(names)
+                return _o(Message(raw2))
+        return _o(m)
+
+    t._send_message = send
+
+
+def channel_roundtrip(lab, timeout=20):
+    try:
+        c, s = lab.pair.session(timeout=timeout)
+        if s is None:
+            return False
+        c.settimeout(timeout)
+        s.settimeout(timeout)
+        c.sendall(b"ping")
+        a = s.recv(4)
+        s.sendall(b"pong")
+        return (a, c.recv(4)) == (b"ping", b"pong")
+    except Exception:
+        return False
+
+
 def victim_of(lab, role):
     return (lab.tc, "c", "ba") if role == "client" else (lab.ts, "s", "ab")
 
@@ -416,7 +454,12 @@ def honest_case(ctx, kex, strict_c, strict_s, nrekeys, hostalg, sample, mode=Non
     ctx.case(("honest", kex, strict_c, strict_s, nrekeys, tuple(inits), mode, marker), sample=desc if sample else None)
     lab = kexlab.Lab(rng, kex, hostalg, strict_c=strict_c, strict_s=strict_s)
     set_mode(lab, mode)
-    if marker:
+    first_only = bool(marker) and marker[1] == "first-only"
+    stripped = []
+    if first_only:
+        # marker present at connect, omitted from this side's later KEXINITs; the other side is the victim
+        first_only_marker(lab.tc if marker[0] == "c" else lab.ts, stripped)
+    elif marker:
         odd_marker(lab.tc if marker[0] == "c" else lab.ts, marker[1])
         ctx.count("marker.honest_sessions")
     failed = None
@@ -424,7 +467,16 @@ def honest_case(ctx, kex, strict_c, strict_s, nrekeys, hostalg, sample, mode=Non
         if not lab.start(timeout=60):
             failed = "handshake"
         else:
-            for who in inits:
+            agreed_at_connect = lab.tc.agreed_on_strict_kex and lab.ts.agreed_on_strict_kex
+            for ri_, who in enumerate(inits):
+                if first_only and ri_ == 1:
+                    # re-key, AUTH, re-key, data
+                    try:
+                        lab.tc.auth_timeout = 30
+                        lab.tc.auth_password("u", "pw")
+                    except Exception:
+                        failed = "auth"
+                        break
                 # traffic in both directions under the current keys, then a rekey
                 try:
                     lab.tc.global_request("vf-ping@verif", wait=True)
@@ -442,9 +494,18 @@ def honest_case(ctx, kex, strict_c, strict_s, nrekeys, hostalg, sample, mode=Non
                         failed = "traffic"
                 except Exception:
                     failed = "traffic"
+            if failed is None and first_only:
+                if not channel_roundtrip(lab):
+                    failed = "channel data after the second rekey"
         pair.wait_for(lambda: lab.link.quiescent(0.05), 5)
         ev = lab.events()
         agreed = lab.tc.agreed_on_strict_kex and lab.ts.agreed_on_strict_kex
+        if first_only:
+            agreed = failed != "handshake" and agreed_at_connect
+            if len(stripped) >= len(inits) and failed is None:
+                ctx.count("rekey_without_marker.sessions_survived")
+            ctx.count("rekey_without_marker.sessions")
+            ctx.count("rekey_without_marker.rekey_kexinits_without_marker", len(stripped))
         if both:
             ctx.count("honest.strict_sessions")
             if not agreed and failed is None:
@@ -456,6 +517,8 @@ def honest_case(ctx, kex, strict_c, strict_s, nrekeys, hostalg, sample, mode=Non
                         ctx.count("honest.first_packet_after_newkeys_checked")
                         if idx > 0:
                             ctx.count("honest.first_packet_after_rekey_newkeys_checked")
+                            if first_only:
+                                ctx.count("rekey_without_marker.first_packet_after_rekey_newkeys_checked")
                         if seq != 0:
                             which = "write" if direction == "out" else "read"
                             when = "the initial NEWKEYS" if idx == 0 else "a rekey NEWKEYS"
@@ -639,6 +702,16 @@ def run(ctx):
                         continue
                     honest_case(ctx, kex, True, True, 1 + (ki + mi) % 2, kexlab.HOSTALGS[(ki + mi) % 7], False,
                                 mode=MODES[(ki + mi) % 5], marker=(side, mpos))
+            for side in "cs":
+                # strict agreed at connect, this side's later KEXINITs omit the marker; victim = the other side
+                if not mine():
+                    continue
+                honest_case(ctx, kex, True, True, 2, kexlab.HOSTALGS[(ki + (side == "s")) % 7], False,
+                            mode=MODES[(ki + ctx.seed + (side == "s")) % 5], marker=(side, "first-only"))
+    ctx.require("rekey_without_marker.sessions", 16)
+    ctx.require("rekey_without_marker.sessions_survived", 16)
+    ctx.require("rekey_without_marker.rekey_kexinits_without_marker", 32)
+    ctx.require("rekey_without_marker.first_packet_after_rekey_newkeys_checked", 100)
     ctx.require("upper.client.injections_judged", 50)
     ctx.require("upper.server.injections_judged", 50)
     ctx.require("upper.connection_layer.client.injections_judged", 30)
